@@ -24,11 +24,15 @@ TKey == /\ Is("Key") /\ [kt |-> H.kt, size |-> H.size] \in KeyTypes /\ H.flow \i
         /\ UNCHANGED vars /\ Adv
 TExport == /\ Is("Export") /\ Export(E.fmt, E.pwd, E.el, E.by)
            /\ E.ok /\ E.indep /\ E.encrypted = act'.encrypted
+           /\ (E.pwd # "none" => PwBinds(E.pwd, E.pw))               \* the text used really has the shape of its class
            /\ (E.fmt = "NXP" => E.len = act'.len)
            /\ (IF E.fmt = "NXP" \/ obj.kk = "priv" \/ E.derLen \in StdPubDerLens(obj.kt, obj.size) THEN TRUE
                ELSE PrintT(<<"DRIFT", H.id, "public-der-length", E.derLen>>))
            /\ Adv
-TParse == Is("Parse") /\ Parse(E.entry, E.given, E.by) /\ E.res = act'.res /\ Adv
+\* eq: the text offered is, character by character, the text the container was made with (none = none)
+TParse == /\ Is("Parse") /\ Parse(E.entry, E.given, E.by) /\ E.res = act'.res
+          /\ (E.given \in PwClasses => PwBinds(E.given, E.gpw)) /\ E.eq = (E.given = obj.pwd)
+          /\ Adv
 TToPublic == Is("ToPublic") /\ ToPublic /\ E.ok /\ Adv
 TSign == /\ Is("Sign") /\ Sign(E.P, E.by) /\ E.ok
          /\ E.sigLen = SigLenExpected(obj.kt, obj.size, E.P.enc, E.rl, Top(E.r0), E.sl, Top(E.s0))
